@@ -15,7 +15,8 @@ def feature_line(n):
     ftype = "g" if n % 2 == 0 else "e"
     seqid = "c2" if n % 3 == 0 else "c1"
     attrs = "ID=f%d" % n if n % 2 == 0 else "ID=f%d;N=x" % n
-    return "%s\ts\t%s\t%d\t%d\t.\t+\t.\t%s" % (seqid, ftype, n, n + 5, attrs)
+    tail = "\t" if n % 4 == 1 else ""        # an empty tenth column: the line ends with a tab
+    return "%s\ts\t%s\t%d\t%d\t.\t+\t.\t%s%s" % (seqid, ftype, n, n + 5, attrs, tail)
 
 
 def render(kinds):
@@ -27,6 +28,8 @@ def render(kinds):
             lines.append("##d1")
         elif k == "D2":
             lines.append("##gff-v 3")
+        elif k == "D3":
+            lines.append("###note")
         elif k == "C":
             lines.append("#a comment")
         elif k == "B":
